@@ -218,6 +218,27 @@ func genWiring(repo string) (string, error) {
 		}
 		return true
 	})
+	// ---- app/runner.go: what the replication client's progress channel is ----
+	{
+		rs, rerr := parseSrc(repo, "app/runner.go")
+		if rerr != nil {
+			return "", rerr
+		}
+		var srcs []string
+		ast.Inspect(rs.file, func(x ast.Node) bool {
+			c, ok := x.(*ast.CallExpr)
+			if ok && strings.HasSuffix(exprString(c.Fun), "replicationClient.Start") && len(c.Args) == 1 {
+				// (without the receiver's name: a renamed receiver must not change the generated text)
+				a := exprString(c.Args[0])
+				if parts := strings.SplitN(a, ".", 2); len(parts) == 2 && strings.Contains(parts[1], ".") {
+					a = parts[1]
+				}
+				srcs = append(srcs, gstr(a))
+			}
+			return true
+		})
+		fmt.Fprintf(&sb, "(* app/runner.go: the argument of every replicationClient.Start(...) call: the channel the client takes acknowledged positions from *)\nDefinition client_progress_sources : list string := %s.\n\n", glist(srcs))
+	}
 	// ---- Kafka producer configuration: what "the producer accepted the message" means ----
 	// every assignment to config.Producer.RequiredAcks / Return.Successes / Return.Errors in the kafka package
 	{
